@@ -467,9 +467,13 @@ def generate(rng, tier):
         yield gen_fit(rng, tier)
     for _ in range(n_prop):
         yield gen_prop(rng, tier)
+    for _ in range(45 if tier == 'quick' else 600):
+        yield gen_entry(rng)
 
 
 def classify(c):
+    if c['op'] in ENTRY_OPS:
+        return entry_classify(c)
     if c['op'] == 'shift':
         return (f'shift/{c["indexing"]}/' + ('nops' if c['ps'] is None else ('scalar' if not isinstance(c['ps'], list) else 'peraxis'))
                 + ('/order>1' if has_dispn(c['tilts']) else '') + ('/sameobj' if c.get('alias') else ''))
@@ -487,6 +491,8 @@ def classify(c):
 
 
 def nontrivial(c):
+    if c['op'] in ENTRY_OPS:
+        return True
     if c['op'] == 'shift':
         return len(c['tilts']) >= 1 and c['ps'] is not None and c['indexing'] != 'bad'
     if c['op'] == 'fit':
@@ -611,6 +617,8 @@ def enc_fitplane(dx, masks, opd, deltas):
 
 
 def encode(c):
+    if c['op'] in ENTRY_OPS:
+        return entry_encode(c)
     if has_dispn(c.get('tilts') or c.get('elems') or []):
         return None      # trace/dispersion of order > 1 (scipy leastsq/quad) is outside the model: decided by the oracle alone
     if c['op'] == 'shift':
@@ -657,6 +665,8 @@ def encode(c):
 
 
 def decode(c, ints):
+    if c['op'] in ENTRY_OPS:
+        return entry_decode(c, ints)
     rd = C.Reader(ints)
     st = rd.z()
     if c['op'] == 'shift':
@@ -746,6 +756,8 @@ def run_rep(lentil, c, st, wave_tilt, planes, start=None):
 
 def run_impl(c):
     lentil = C.import_lentil()
+    if c['op'] in ENTRY_OPS:
+        return entry_run(lentil, c)
     if c['op'] == 'shift':
         objs = make_objs(lentil, c['tilts'], c.get('alias'))
         ps = None if c['ps'] is None else (fl(c['ps']) if not isinstance(c['ps'], list) else (fl(c['ps'][0]), fl(c['ps'][1])))
@@ -859,6 +871,8 @@ def run_impl(c):
 
 # ------------------------------------------------------------------ comparison with the model
 def compare(c, impl, model):
+    if c['op'] in ENTRY_OPS:
+        return entry_compare(c, impl, model)
     if c['op'] in ('shift', 'fit'):
         if c['op'] == 'fit' and model.get('err') == 'ValueError' and 'err' not in impl:
             return None     # rank-deficient masked basis: lstsq's minimum-norm choice is outside the model
@@ -988,6 +1002,8 @@ def must_evaluate(shape, P, s, eps=1e-9):
 
 
 def oracle(c, impl):
+    if c['op'] in ENTRY_OPS:
+        return entry_oracle(c, impl)
     if c['op'] == 'wave':
         if c['tilt'] is not None and len(c['tilt']) != 2:
             return None if impl.get('err') == 'ValueError' else 'a wavefront tilt that is not [rx, ry] was not refused with ValueError'
@@ -1196,42 +1212,244 @@ def extra(tier, rng):
     return {'report': report, 'violations': viol}
 
 
-# ------------------------------------------------------------------ known findings
-def known_match(finding, case, impl):
-    """C04-dispersive-higher-order-propagate: a DispersiveTilt whose trace or dispersion polynomial has order > 1 returns
-    one-element arrays from shift() (scipy.optimize.leastsq), and propagate_dft then raises ValueError. Exactly this: a
-    prop case with such an element in which representations that carry the element as metadata raise ValueError (and
-    only those), and every representation that did propagate satisfies the property."""
-    if finding.get('id') != 'C04-dispersive-higher-order-propagate' or case.get('op') != 'prop':
-        return False
-    if not has_dispn(case['elems']) or not isinstance(impl, dict):
-        return False
-    (_, _), (_, _), rest = mixed_parts(case, prop_setup(case))
-    carriers = [f'plane{k}' for k in range(len(case['orders']))] + ['again', 'branch'] + (['mixed'] if has_dispn(rest) else [])
-    raising = []
-    for name in rep_names(case):
-        r = impl.get(name) or {}
-        raised = str(r.get('err', ''))
-        if raised:
-            if name not in carriers or not raised.startswith('ValueError'):
-                return False
-            raising.append(name)
-    if not raising:
-        return False
-    # every representation that did propagate must still satisfy the property
-    probe = dict(case)
-    probe['_only'] = [n for n in rep_names(case) if n not in raising]
-    return oracle(probe, impl) is None
+# ------------------------------------------------------------------ entry points, refusal paths, early returns
+# (op 'fft': the propagate_fft guard; 'fitcall': the entry of fit_tilt for Plane / Pupil / Image, with and without a
+#  2-d mask, pixelscale, array OPD, inplace; 'dctor': DispersiveTilt's constructor)
+ENTRY_OPS = ('fft', 'fitcall', 'dctor')
+FFT_Z, FFT_DX, FFT_DU, FFT_OS = 8.0, 0.25, 4.0, 2          # alpha = dx*du/(wl*z*os) = 1/16 for wl = 1
 
 
-def replay_known(finding):
-    if finding.get('id') != 'C04-dispersive-higher-order-propagate':
-        return False
-    lentil = C.import_lentil()
-    try:
-        p = lentil.Pupil(amplitude=np.ones((4, 4)), pixelscale=0.25, focal_length=8)
-        w = lentil.Wavefront(1.0) * p * lentil.DispersiveTilt(trace=[0.5, 0.2, 0.0], dispersion=[0.5, 0.6])
-        lentil.propagate_dft(w, pixelscale=1, shape=(6, 6), oversample=2)
-        return False
-    except ValueError:
-        return True
+def gen_entry(rng):
+    t = rng.random()
+    if t < 0.4:
+        nseg = rng.choice([1, 1, 2])
+        w = rng.random()
+        wt = None if w < 0.5 else (['0', '0'] if w < 0.65 else [str(rq(rng, (8, 16), -4, 4) / 16), str(rq(rng, (8, 16), -4, 4) / 16)])
+        ne = rng.choice([0, 0, 1, 2])
+        elems = []
+        for _ in range(ne):
+            r = rng.random()
+            if r < 0.2:
+                elems.append(['ang', '0', '0'])
+            elif r < 0.8:
+                elems.append(['ang', str(rq(rng, (8, 16), -4, 4) / 16), str(rq(rng, (8, 16), -4, 4) / 16)])
+            else:
+                elems.append(rnd_disp(rng, '1', F(2)))
+        f = rng.random()
+        fitted = None if f < 0.6 else ('zero' if f < 0.75 else 'ramp')
+        return {'op': 'fft', 'nseg': nseg, 'wtilt': wt, 'elems': elems, 'before': rng.randint(0, ne), 'fitted': fitted,
+                'ramp': [str(rq(rng, (8,), -4, 4) / 8), str(rq(rng, (8,), -4, 4) / 8)]}
+    if t < 0.8:
+        m, n = rng.randint(2, 5), rng.randint(2, 5)
+        kind = rng.choice(['plane', 'pupil', 'pupil', 'image'])
+        has_mask = rng.random() < 0.8
+        opd = None if rng.random() < 0.25 else [[str(rq(rng, (1, 2, 4, 8), -8, 8)) for _ in range(n)] for _ in range(m)]
+        mask = [[1] * n for _ in range(m)]
+        if m * n > 4 and rng.random() < 0.5:
+            mask[0][0] = 0
+        return {'op': 'fitcall', 'kind': kind, 'has_mask': has_mask, 'inplace': rng.random() < 0.4, 'm': m, 'n': n,
+                'ps': None if rng.random() < 0.25 else [rng.choice(DX_ANY), rng.choice(DX_ANY)], 'opd': opd, 'mask': mask}
+    lt, ld = rng.choice([0, 1, 2, 2, 3, 4]), rng.choice([0, 1, 2, 2, 3])
+    return {'op': 'dctor', 'trace': [str(rq(rng, (1, 2, 4), -4, 4)) for _ in range(lt)],
+            'dispersion': [str(rq(rng, (1, 2, 4), 1, 4)) for _ in range(ld)], 'scalar': rng.random() < 0.1}
+
+
+def entry_classify(c):
+    if c['op'] == 'fft':
+        return f'fft/seg{c["nseg"]}/w{"-" if c["wtilt"] is None else "+"}/el{len(c["elems"])}/fit-{c["fitted"]}'
+    if c['op'] == 'fitcall':
+        return (f'fitcall/{c["kind"]}/mask{int(c["has_mask"])}/ps{int(c["ps"] is not None)}/opd{int(c["opd"] is not None)}'
+                f'/inplace{int(c["inplace"])}')
+    return f'dctor/{len(c["trace"])}x{len(c["dispersion"])}' + ('/scalar' if c.get('scalar') else '')
+
+
+def fft_masks(c):
+    if c['nseg'] == 1:
+        return [np.ones((4, 4))]
+    a = np.zeros((4, 4))
+    a[:, :2] = 1
+    return [a, 1 - a]
+
+
+def fft_opd(c):
+    if c['fitted'] == 'ramp':
+        return ramp(4, 4, fl(c['ramp'][0]), fl(c['ramp'][1]), [FFT_DX, FFT_DX]) + 0.125
+    return np.zeros((4, 4))
+
+
+def entry_encode(c):
+    if c['op'] == 'fft':
+        masks = fft_masks(c)
+        if c['fitted']:
+            plane = enc_fitplane([str(F(1, 4)), str(F(1, 4))], masks, fft_opd(c), [])
+        else:
+            plane = [1, c['nseg'], 0]
+        items = [[0] + enc_tilt(e) for e in c['elems'][:c['before']]] + [plane] + [[0] + enc_tilt(e) for e in c['elems'][c['before']:]]
+        w = [0] if c['wtilt'] is None else [1, 2] + enc_f(c['wtilt'][0]) + enc_f(c['wtilt'][1])
+        return [6, 1] + w + [len(items)] + [x for it in items for x in it]
+    if c['op'] == 'fitcall':
+        out = [7, {'plane': 0, 'pupil': 1, 'image': 2}[c['kind']], int(c['has_mask']), int(c['inplace'])]
+        out += enc_ps(c['ps']) + ([1] + enc_arrq(np.array(c['mask'], dtype=float)) if c['has_mask'] else [0])
+        out += ([0] if c['opd'] is None else [1] + enc_arrq(frac_arr(c['opd']))) + [0]
+        return out
+    if c['op'] == 'dctor':
+        if c.get('scalar'):
+            return None            # a bare number instead of a coefficient list: decided by the oracle alone
+        t0 = fl(c['trace'][0]) if c['trace'] else 0.0
+        root = float(np.sqrt(1 + t0 ** 2))
+        return ([8, len(c['trace'])] + [x for v in c['trace'] for x in enc_f(v)] + [len(c['dispersion'])]
+                + [x for v in c['dispersion'] for x in enc_f(v)] + C.enc_q(root))
+    return None
+
+
+def read_qplane(rd):
+    opd = rd.opt(lambda: rd.arr(rd.q))
+    return {'opd': opd, 'tilts': rd.lst(lambda: read_tilt(rd))}
+
+
+def entry_decode(c, ints):
+    rd = C.Reader(ints)
+    st = rd.z()
+    if c['op'] == 'fft':
+        assert rd.z() == 1
+        return {'refused': rd.z() == 1}
+    if c['op'] == 'fitcall':
+        if st == 1:
+            return {'err': C.ERRNAMES[rd.z()]}
+        return {'returned': read_qplane(rd), 'receiver': read_qplane(rd)}
+    code = rd.z()
+    return {'kind': ['refused', 'first', 'higher'][code], 'tilt': read_tilt(rd) if code == 1 else None}
+
+
+def plane_state(p):
+    o = np.asarray(p.opd, dtype=float)
+    return {'opd': None if o.ndim == 0 else o, 'tilts': [stored(t) for t in p.tilt]}
+
+
+def entry_run(lentil, c):
+    if c['op'] == 'fft':
+        masks = fft_masks(c)
+        mask = masks[0] if len(masks) == 1 else np.array(masks)
+
+        def pupil(opd):
+            return lentil.Pupil(amplitude=sum(masks), opd=opd, mask=mask, pixelscale=FFT_DX, focal_length=FFT_Z)
+        p = pupil(fft_opd(c))
+        if c['fitted']:
+            p = p.fit_tilt()
+        objs = [tilt_obj(lentil, e) for e in c['elems']]
+        w = lentil.Wavefront(1.0) if c['wtilt'] is None else lentil.Wavefront(1.0, tilt=[fl(v) for v in c['wtilt']])
+        for pl in objs[:c['before']] + [p] + objs[c['before']:]:
+            w = w * pl
+        shifts = [[float(np.ravel(v)[0]) for v in f.shift(z=FFT_Z, wavelength=1.0, pixelscale=FFT_DU, oversample=FFT_OS)] for f in w.data]
+        res = {'shifts': shifts, 'has_meta': any(len(f.tilt) > 0 for f in w.data)}
+        ref = lentil.propagate_fft(lentil.Wavefront(1.0) * pupil(np.zeros((4, 4)) if c['fitted'] != 'ramp' else fft_opd(c) * 0),
+                                   pixelscale=FFT_DU, oversample=FFT_OS).field
+        try:
+            out = lentil.propagate_fft(w, pixelscale=FFT_DU, oversample=FFT_OS)
+            res['refused'] = False
+            res['same_as_untilted'] = bool(out.field.shape == ref.shape and np.allclose(out.field, ref, rtol=0, atol=1e-9 * np.max(np.abs(ref))))
+        except NotImplementedError:
+            res['refused'] = True
+        except Exception as e:
+            res['err'] = type(e).__name__
+        return res
+    if c['op'] == 'fitcall':
+        cls = {'plane': lentil.Plane, 'pupil': lentil.Pupil, 'image': lentil.Image}[c['kind']]
+        kw = {}
+        if c['has_mask']:
+            kw['amplitude'] = np.array(c['mask'], dtype=float)
+            kw['mask'] = np.array(c['mask'], dtype=float)
+        if c['opd'] is not None:
+            kw['opd'] = frac_arr(c['opd'])
+        if c['ps'] is not None:
+            kw['pixelscale'] = (fl(c['ps'][0]), fl(c['ps'][1]))
+        try:
+            p = cls(**kw)
+            q = p.fit_tilt(inplace=c['inplace'])
+            return {'returned': plane_state(q), 'receiver': plane_state(p), 'same_obj': q is p}
+        except Exception as e:
+            return {'err': type(e).__name__}
+    if c['op'] == 'dctor':
+        try:
+            if c.get('scalar'):
+                t = lentil.DispersiveTilt(trace=fl(c['trace'][0]) if c['trace'] else 1.0, dispersion=[fl(v) for v in c['dispersion']] or [1.0, 1.0])
+            else:
+                t = lentil.DispersiveTilt(trace=[fl(v) for v in c['trace']], dispersion=[fl(v) for v in c['dispersion']])
+            return {'constructed': True, 'stored': stored(t), 'sizes': [int(np.asarray(t.trace).size), int(np.asarray(t.dispersion).size)]}
+        except Exception as e:
+            return {'err': type(e).__name__}
+    return {'err': 'unknown op'}
+
+
+def cmp_state(a, b, what):
+    if (a['opd'] is None) != (b['opd'] is None):
+        return f'{what}: OPD is {"a scalar" if a["opd"] is None else "an array"} in the implementation, {"a scalar" if b["opd"] is None else "an array"} in the model'
+    if a['opd'] is not None:
+        mo = np.array([[float(v) for v in row] for row in b['opd']])
+        if mo.shape != a['opd'].shape or np.max(np.abs(mo - a['opd'])) > TOL * (1 + np.max(np.abs(mo))):
+            return f'{what}: OPD differs from the model'
+    msg = cmp_tilts(a['tilts'], b['tilts'], TOL)
+    return f'{what}: {msg}' if msg else None
+
+
+def entry_compare(c, impl, model):
+    if c['op'] == 'fft':
+        if 'err' in impl:
+            return f'propagate_fft raised {impl["err"]}'
+        if impl['refused'] != model['refused']:
+            if model['refused'] and all(abs(v) < 1e-12 for s_ in impl['shifts'] for v in s_):
+                return None        # bookkeeping present but of zero displacement: accepting it is not pinned by C04
+            return f'propagate_fft {"refused" if impl["refused"] else "accepted"} the wavefront, the model {"refuses" if model["refused"] else "accepts"} it'
+        return None
+    if c['op'] == 'fitcall':
+        if ('err' in impl) != ('err' in model):
+            return f'implementation {impl.get("err", "returned a value")}, model {model.get("err", "returned a value")}'
+        if 'err' in impl:
+            return None if impl['err'] == model['err'] else f'error kinds differ: impl {impl["err"]} model {model["err"]}'
+        return cmp_state(impl['returned'], model['returned'], 'plane handed back') or cmp_state(impl['receiver'], model['receiver'], 'receiver after the call')
+    if c['op'] == 'dctor':
+        if model['kind'] == 'refused':
+            return None if impl.get('err') == 'AssertionError' else f'model: AssertionError, implementation: {impl.get("err", "constructed")}'
+        if 'err' in impl:
+            return f'implementation raised {impl["err"]}, model constructs a {model["kind"]}-order element'
+        if model['kind'] == 'first':
+            return cmp_tilts([impl['stored']], [model['tilt'][:5]], 0.0)
+        return None if max(impl['sizes']) > 2 else 'model: numeric (higher-order) branch, implementation holds first-order polynomials'
+    return None
+
+
+def entry_oracle(c, impl):
+    if c['op'] == 'fft':
+        if 'err' in impl:
+            return f'propagate_fft raised {impl["err"]}'
+        moved = any(abs(v) > 0.05 for s_ in impl['shifts'] for v in s_)
+        if not impl['refused'] and moved and impl.get('same_as_untilted'):
+            return ('propagate_fft accepted a wavefront whose tilt bookkeeping displaces the image by '
+                    f'{impl["shifts"]} samples and returned the untilted field: the tilt was silently dropped')
+        return None
+    if c['op'] == 'fitcall':
+        if c['kind'] != 'image' and c['has_mask'] and c['ps'] is None:
+            return None if impl.get('err') == 'ValueError' else 'a masked plane without pixelscale cannot record angles: fit_tilt must refuse it (ValueError)'
+        if 'err' in impl:
+            return f'fit_tilt raised {impl["err"]} on a valid plane'
+        m, n = c['m'], c['n']
+        orig = None if c['opd'] is None else frac_arr(c['opd'])
+        ret, rec = impl['returned'], impl['receiver']
+        if (ret['opd'] is None) != (orig is None):
+            return 'fit_tilt changed a scalar OPD into an array or vice versa'
+        if orig is not None:
+            mask = np.array(c['mask'], dtype=float) if c['has_mask'] else np.ones((m, n))
+            tot = ret['opd'].copy()
+            for t in ret['tilts']:
+                if c['ps'] is None:
+                    return 'a tilt was recorded without a pixelscale'
+                tot = tot + ramp(m, n, t[2], t[1], c['ps'])
+            if np.max(np.abs((tot - orig) * mask)) > TOL * (1 + np.max(np.abs(orig))):
+                return 'OPD plus recorded tilt changed (piston or tilt lost)'
+        elif ret['tilts']:
+            return 'a tilt was recorded for a scalar OPD'
+        if not c['inplace'] and not impl.get('same_obj'):
+            if rec['tilts'] or (orig is not None and not np.array_equal(rec['opd'], orig)):
+                return 'fit_tilt(inplace=False) modified the plane it was called on'
+        return None
+    return None
